@@ -25,9 +25,15 @@ theorem take_append_len {α : Type} (a b : List α) (n : Nat) (h : a.length = n)
 theorem drop_append_len {α : Type} (a b : List α) (n : Nat) (h : a.length = n) : (a ++ b).drop n = b := by
   subst h; simp
 
+theorem fitsInt32_iff (v : Int) : fitsInt32 v ↔ -2147483648 ≤ v ∧ v < 2147483648 := by
+  unfold fitsInt32; omega
+
+theorem fitsInt64_iff (v : Int) : fitsInt64 v ↔ -9223372036854775808 ≤ v ∧ v < 9223372036854775808 := by
+  unfold fitsInt64; omega
+
 theorem readInt32_write (i : Int) (h : -2147483648 ≤ i ∧ i < 2147483648) (rest : Bytes) :
     ∃ bs, writeInt32 i = some bs ∧ bs.length = 4 ∧ readInt32 (bs ++ rest) = some (i, rest) := by
-  refine ⟨leBytes 4 (i % 4294967296).toNat, by simp [writeInt32, h], leBytes_length _ _, ?_⟩
+  refine ⟨leBytes 4 (i % 4294967296).toNat, by simp [writeInt32, (fitsInt32_iff i).2 h], leBytes_length _ _, ?_⟩
   have hlen := leBytes_length 4 (i % 4294967296).toNat
   have hlt : (i % 4294967296).toNat < 4294967296 := by omega
   unfold readInt32
@@ -38,7 +44,7 @@ theorem readInt32_write (i : Int) (h : -2147483648 ≤ i ∧ i < 2147483648) (re
 
 theorem readInt64_write (i : Int) (h : -9223372036854775808 ≤ i ∧ i < 9223372036854775808) (rest : Bytes) :
     ∃ bs, writeInt64 i = some bs ∧ bs.length = 8 ∧ readInt64 (bs ++ rest) = some (i, rest) := by
-  refine ⟨leBytes 8 (i % 18446744073709551616).toNat, by simp [writeInt64, h], leBytes_length _ _, ?_⟩
+  refine ⟨leBytes 8 (i % 18446744073709551616).toNat, by simp [writeInt64, (fitsInt64_iff i).2 h], leBytes_length _ _, ?_⟩
   have hlen := leBytes_length 8 (i % 18446744073709551616).toNat
   have hlt : (i % 18446744073709551616).toNat < 18446744073709551616 := by omega
   unfold readInt64
